@@ -111,7 +111,10 @@ def gen_tokens(rng, cfg, size, allow_undef=True):
                 toks.append({"t": "icall"})
                 delay()
             elif k < 0.89 and fam in ("x64", "ia32"):
-                toks.append({"t": rng.choice(["icallm", "ijmpm"]), "to": rng.choice(ref_targets)})
+                tok = {"t": rng.choice(["icallm", "ijmpm"]), "to": rng.choice(ref_targets)}
+                if fam == "x64" and not pe and rng.random() < 0.4:
+                    tok["got"] = True
+                toks.append(tok)
             elif k < 0.91 and fam == "mips":
                 toks.append({"t": "b", "to": rng.choice(labels)})
                 delay()
